@@ -49,7 +49,7 @@ claims={
   note="Assumed: determinism of PikeVM / DFA search loops given these views; PikeVM scratch clearing; sync.Pool and atomic.Pointer hand-off. Two genuine defects found by these obligations were fixed in /repo (see known_findings.json).",
   ref="DESIGN 6/C13"),
  "C14": dict(
-  text="Narrow (support structures only): lazy StateID tag algebra (Offset/With*Tag/Is*Tag, safeOffset), onepass Transition packing (constructors and accessors are mutual inverses for next<=MaxStateID), cache clear protocol and row initialisation, isWordByte/checkLookAssertion safety. The give-up path of the reverse search is under contract against the reference answer (nfaFallbackReverse): open known finding, it returns a wrong start on caches too small for the automaton.",
+  text="Narrow (support structures only): lazy StateID tag algebra (Offset/With*Tag/Is*Tag, safeOffset), onepass Transition packing (constructors and accessors are mutual inverses for next<=MaxStateID), cache clear protocol and row initialisation, isWordByte/checkLookAssertion safety. The give-up protocol of the lazy DFA searches is under contract as ghost-state postconditions (searchAt, findWithPrefilterAt, SearchAtAnchored, SearchReverseLimited: determinisation failed => the result is the NFA fallback's from the requested start; cache cleared => the search starts over and returns that result; safety obligations of these four loops are not generated). Four genuine small-cache defects found here were fixed (fallback from offset 0, resume-after-clear in six loops, reverse fallback simulating forwards).",
   note="Not applicable part: that PikeVM, backtracker, lazy DFA determinisation/search, one-pass construction and NFA reversal return the reference answer - no contract within reach expresses this without a formal semantics of the compiled NFA.",
   ref="DESIGN 6/C14"),
  "C16": dict(
